@@ -342,7 +342,7 @@ func decodeAxioms(asserts []*Term) []*Term {
 
 var injectiveUF = map[string]bool{"HMAC": true, "SHA256": true, "SHA1": true, "hex_enc": true,
 	"b64enc_url": true, "b64enc_rawurl": true, "b64enc_std": true, "b64enc_rawstd": true,
-	"Enc": true, "pack": true}
+	"Enc": true, "pack": true, "CFBenc": true}
 
 // idealAxioms instantiates collision-freeness of the ideal (injective)
 // functions on the applications that occur in the query, and the alphabet of
@@ -370,8 +370,8 @@ func idealAxioms(asserts []*Term) []*Term {
 	for _, name := range sortedKeys(apps) {
 		as := apps[name]
 		for i := 0; i < len(as); i++ {
-			if name == "HMAC" || name == "SHA256" || name == "SHA1" {
-				out = append(out, mkGe(mkLen(as[i]), mkInt(1)))
+			if n, ok := knownLen(as[i]); ok {
+				out = append(out, mkEq(app("str.len", SInt, as[i]), mkInt(n)))
 			}
 			if strings.HasPrefix(name, "b64enc_") {
 				// what the encoder produced decodes, to the same bytes
@@ -1434,6 +1434,11 @@ func (e *Exec) callFunction(fn *ssa.Function, args []Value) Value {
 	}
 	if intr := e.w.lookupIntrinsic(fn); intr != nil {
 		return intr(e, fn, args)
+	}
+	if e.h.Ideal {
+		if v, ok := e.idealCFB(fn, args); ok {
+			return v
+		}
 	}
 	if fn.Blocks == nil {
 		e.unsupported("call to function without body %s", fn.String())
